@@ -196,6 +196,9 @@ def run(ctx):
         # exhaustive size x offset for MTU 576 (2.1e9 calls), 16-wide
         args = [[576, lo, min(32769, lo + 2049), 0, 0, 0x0E] for lo in range(0, 32769, 2049)]
         sweeps.run_sweep(ctx, "c08", args, "C08", binary=plain, timeout=6 * 3600)
+        # and for MTU 1500 (another 2.1e9 calls)
+        args = [[1500, lo, min(32769, lo + 2049), 0, 0, 0x0E] for lo in range(0, 32769, 2049)]
+        sweeps.run_sweep(ctx, "c08", args, "C08", binary=plain, timeout=6 * 3600)
         rep.exhaustive = True
         sw = H.build(ctx.work, "asan", program="vh_sweep", esp32=False)
         args = []
